@@ -454,14 +454,14 @@ TECHNIQUE = ("Lean 4 proof: hand model of ratio / ratio_divide / common_type / t
              "boundary + seeded correspondence run against the implementation and libstdc++")
 LEVEL_TEXT = ("duration_cast (all four duration_cast_impl bodies), the conversion to the common type (the converting constructor and "
               "common_type = gcd of numerators / lcm of denominators), == != < <= > >=, + and - of two durations, floor, ceil, "
-              "round (nearest, ties to even), abs, unary minus and the compound assignments += -= *= (also as used by time_point) "
-              "are proved in Lean 4 — for every pair of periods with positive numerator and denominator, every signed 32..64-bit "
+              "round (nearest, ties to even), abs, unary minus, the compound assignments += -= *= (also as used by time_point), "
+              "duration / duration and duration % duration are proved in Lean 4 — for every pair of periods with positive numerator and denominator, every signed 32..64-bit "
               "representation and every tick count for which the intermediate products and the exact result are representable — "
               "to return (never an error: no signed overflow, no division by zero, no constructor dropped from overload "
               "resolution) exactly the value that exact rational arithmetic over Q prescribes: trunc / floor / ceil / "
               "round-half-even of c*p/q, comparison of the two values in seconds, and a sum / difference whose value in seconds is "
-              "the sum / difference of the operands. The members listed in coverage.correspondence_only (duration / duration, "
-              "duration % duration, /= and %=, unary +) and every operation on floating-point representations are compared "
+              "the sum / difference of the operands, the truncated quotient of the two values, the exact remainder. The members "
+              "listed in coverage.correspondence_only (/= and %=, unary +, the named aliases, zero/min/max) and every operation on floating-point representations are compared "
               "differentially only. The model is tied to the current source on every run by running model, implementation, Lean "
               "spec and libstdc++ on the same inputs under ASan/UBSan: all 100 ordered period pairs x all counts in [-2000, 2000] "
               "for the four casts (int64), boundary values around 2^31 and 2^62, int32 and mixed representations, periods not in "
@@ -474,7 +474,7 @@ LEVEL_NOTE = ("Trusted: Lean kernel + propext/Classical.choice/Quot.sound; the h
               "representations have no theorem (coverage.unproved_observed). The free functions duration*rep, duration/rep, "
               "duration%rep and time_point+-duration, time_point-time_point do not exist in tetl (known findings).")
 # members modelled and compared on every run but without a Lean theorem yet
-CORRESPONDENCE_ONLY = ["operator/(duration, duration)", "operator%(duration, duration)", "duration::operator/=", "duration::operator%=",
+CORRESPONDENCE_ONLY = ["duration::operator/=", "duration::operator%=",
                        "duration::operator+ (unary)", "named duration aliases (periods of nanoseconds … years)",
                        "duration::zero/min/max, time_point::min/max", "time_point converting constructor",
                        "all operations on floating-point representations"]
@@ -486,9 +486,9 @@ THEOREMS = {
     "add": ["C12.Props.add_exact"], "sub": ["C12.Props.sub_exact"],
     "cmp": ["C12.Props.eq_eq", "C12.Props.lt_eq", "C12.Props.cmp_derived_eq"],
     "tp_cmp": ["C12.Props.eq_eq", "C12.Props.lt_eq", "C12.Props.cmp_derived_eq"],
-    "common": ["C12.Props.common_exact"], "conv": ["C12.Props.common_exact"],
+    "common": ["C12.Props.common_exact"], "ctype": ["C12.Props.commonPeriod_eq"], "conv": ["C12.Props.common_exact"],
     "abs": ["C12.Props.abs_eq"], "neg": ["C12.Props.neg_eq"],
     "adda": ["C12.Props.addAssign_eq"], "tp_adda": ["C12.Props.addAssign_eq"], "inc": ["C12.Props.addAssign_eq"],
     "suba": ["C12.Props.subAssign_eq"], "tp_suba": ["C12.Props.subAssign_eq"], "dec": ["C12.Props.subAssign_eq"],
-    "mula": ["C12.Props.mulAssign_eq"],
+    "mula": ["C12.Props.mulAssign_eq"], "div": ["C12.Props.div_eq"], "mod": ["C12.Props.mod_exact"],
 }
